@@ -369,7 +369,9 @@ func (t *HtmlScanner) readTag() (tok *Token, err error) {
 			// <input value=yes> -- 读取到 '=' 结束
 
 			if unicode.IsSpace(ch) {
-				attrName.WriteRune(' ')
+				if !strings.HasSuffix(attrName.String(), " ") { // 属性名之后的连续空白只记一个 否则属性名会带上多余的空格
+					attrName.WriteRune(' ')
+				}
 			} else if ch == '>' {
 				name := strings.TrimSuffix(attrName.String(), " ")
 				attr := &Attr{
